@@ -340,7 +340,11 @@ template <class E> struct DequeRun {
         else if (o == "assign_to_b") { std::vector<int> pb = ma; R.call([&] { *b = *a; }); after(post, ATOMIC, &pb, REFILL); }
         else if (o == "self_assign") { R.call([&] { D& alias = *a; *a = alias; }); after(post, ATOMIC); }
         else if (o == "copy_ctor") {
-            D* c = 0; R.call([&] { c = new D(*a, R.mm); });
+            // into the second manager when there is one: everything the copy owns must then come from it
+            const bool other = &R.mmB() != (xercesc::MemoryManager*)&R.mm && R.arg("keep") == 0; const uint64_t liveA = R.mm.liveBlocks;
+            D* c = 0; R.call([&] { c = new D(*a, other ? R.mmB() : (xercesc::MemoryManager&)R.mm); });
+            if (c && other && R.mm.liveBlocks != liveA) R.bad("wrong-manager", "copy constructed with another manager took " + std::to_string((long long)(R.mm.liveBlocks - liveA)) + " block(s) from the source's manager");
+            if (c && other) { if (read(*c) != ma || c->size() != ma.size()) R.bad("copy-contents", "copy is " + show(read(*c)) + " size() " + std::to_string(c->size()) + ", source " + show(ma)); delete c; c = 0; }
             if (c) { if (read(*c) != ma || c->size() != ma.size()) R.bad("copy-contents", "copy is " + show(read(*c)) + " size() " + std::to_string(c->size()) + ", source " + show(ma)); if (R.arg("keep")) a->swap(*c); delete c; }
             after(post, ATOMIC);
         }
